@@ -45,7 +45,7 @@ def parseAddr (s : String) : Option Addr :=
     the oracle never sees plaintext bytes) -/
 def dataOf (tid : Nat) : Bytes := [(tid / 65536 % 256).toUInt8, (tid / 256 % 256).toUInt8, (tid % 256).toUInt8]
 
-def secretOf (kid : Nat) : Bytes := [kid.toUInt8]
+def secretOf (kid : Nat) : Bytes := [(kid / 256).toUInt8, (kid % 256).toUInt8]
 
 /-- the ideal AEAD as a table: only what was sealed under this secret and nonce opens -/
 def cryptoOf (log : List Entry) : Crypto where
@@ -206,6 +206,52 @@ def step (s : TSt) (op impl : String) : TSt × StepOut :=
       let implVerified := implHead == "proceed" && field iw "av=" == some "1"
       let fails := judge kid b (some a) (maxAge, Uquic.Spec.TokenMon.retryLimit (intOf idle)) (if implVerified then "ok" else "err") implVerified
       return (s, { model := withTail text, tags := [tag], fails := fails })
+  | ["dkey", _inst] => Id.run do
+    -- a Transport without TokenGeneratorKey draws a fresh random key: never all-zero, never equal to another key
+    let mut fails : List (String × String × String) := []
+    if field iw "zero=" == some "1" then
+      fails := fails ++ [("default_key_is_random", "-", "a Transport without TokenGeneratorKey uses the all-zero token key")]
+    if field iw "dup=" == some "1" then
+      fails := fails ++ [("default_key_is_random", "-", "two Transports without TokenGeneratorKey (or a fixed key) share the token key")]
+    return (s, { model := "zero=0 dup=0", tags := ["dkey"], fails := fails })
+  | ["dissue", tid, inst, addr] =>
+    match parseAddr addr with
+    | none => (s, { model := "bad-op" })
+    | some a =>
+      match field iw "tok=", field iw "rscid=" with
+      | some hx, some rs =>
+        if implHead == "ok" then
+          let b := hexToBytes hx
+          let f : Fields := { isRetryToken := true, remoteAddr := encodeRemoteAddr a, timestamp := now, rtt := 0,
+                              odcid := [1, 2, 3, 4, 5, 6, 7, 8], rscid := hexToBytes rs }
+          let e : Entry := { tid := natOf tid, kid := 100 + natOf inst, nonce := b.take tokenNonceSize, cipher := b.drop tokenNonceSize,
+                             fields := some f, issuedFor := some a }
+          ({ s with log := s.log ++ [e] }, { model := withTail s!"ok tok={hx} rscid={rs}", tags := ["dissue"] })
+        else (s, { model := withTail "ok tok=? rscid=?" })
+      | _, _ => (s, { model := withTail "ok tok=? rscid=?" })
+  | ["dinitial", inst, tok, addr, wr] =>
+    match resolveTok s tok, parseAddr addr with
+    | none, _ => (s, { model := "skip" })
+    | _, none => (s, { model := "bad-op" })
+    | some b, some a => Id.run do
+      let kid := 100 + natOf inst
+      let maxAge := Uquic.Gen.AmpToken.defaultMaxTokenAge
+      let idle : Int := 5000000000
+      let out := handleInitial (cryptoOf s.log) (codecOf s.log) (secretOf kid) b [1, 2, 3, 4, 5, 6, 7, 8] a now maxAge (maxRetryTokenAge idle) (wr == "1")
+      let (text, tag) := match out with
+        | .invalidToken => ("drop", "dinitial:invalid-retry-token")
+        | .retry => ("retry", "dinitial:retry")
+        | .proceed av _ _ _ => (s!"proceed av={if av then 1 else 0}", if av then "dinitial:verified" else "dinitial:unverified")
+        | .panic => ("PANIC", "dinitial:panic")
+      let implVerified := implHead == "proceed" && field iw "av=" == some "1"
+      let mut fails := judge kid b (some a) (maxAge, Uquic.Spec.TokenMon.retryLimit idle) (if implVerified then "ok" else "err") implVerified
+      -- a token made by ANOTHER server instance, or sealed under any other key, is never proof of address here
+      let foreign := s.log.any fun e => e.kid != kid && e.nonce ++ e.cipher == b
+      let tag2 := if foreign then ["dinitial:foreign-token"] else if (issuedExactly s kid b).isSome then ["dinitial:own-token"] else []
+      if implVerified && foreign && (issuedExactly s kid b).isNone then
+        fails := fails ++ [("token_foreign_instance_rejected", "-", s!"a token sealed by another instance / under another key was accepted as proof of address by instance {inst}")]
+      -- and one this instance handed out must not turn into a Retry/INVALID_TOKEN loop for the same host in time
+      return (s, { model := withTail text, tags := [tag] ++ tag2, fails := fails })
   | ["sleep", _] => (s, { model := withTail "ok", tags := ["sleep"] })
   | _ => (s, { model := "bad-op" })
 
